@@ -281,6 +281,8 @@ def probes(backend: str) -> List[Dict[str, Any]]:
     for body, md, dk in [
         ("undeclared", [], None),
         ("undeclared2", [["method", elem, "bar", "int"]], None),
+        ("declared", [["method", elem, "bar", "int"]], None),
+        ("enum", [["enum", "xAOD.Jet", "Color", ["Red", "Blue"]]], None),
         ("undeclared_alt1", [], None),
         ("undeclared_alt2", [], None),
         ("use_mycoll", [], None),
@@ -318,6 +320,11 @@ def gen_scenario(rng: random.Random, max_ops: int, defaults) -> Tuple[List[Dict[
     p = dict(rng.choice(probes(main)))
     if n_execs and rng.random() < 0.5:
         p["who"] = rng.randrange(n_execs)
+    if p["md"] and p["who"] != "new" and rng.random() < 0.6:
+        # the executor has just handled a query carrying the SAME metadata as the probe (a client sending one preamble with
+        # every query): the probe's own declarations must still take effect
+        ops.append({"op": "handle", "who": p["who"], "backend": main, "docker": p["docker"] if rng.random() < 0.5 else None,
+                    "md": [list(m) for m in p["md"]], "body": rng.choice(["plain", "plain", "undeclared", "fail_write_op"]), "outdir": True})
     ops.append(p)
     # the probe's backend is that of the executor handling it
     ops[-1]["backend"] = probe_backend(ops)
@@ -343,6 +350,11 @@ def corpus(defaults) -> List[List[Dict[str, Any]]]:
         [h("atlas", "plain", [["collection", "atlas", "Jets"]]), h("atlas", "plain", who=0)],  # h_coll: a declared collection overriding a built-in, reused executor
         [h("cms_miniaod", "plain", [["collection", "cms_miniaod", "Muons"]]), h("cms_miniaod", "plain", who=0)],
         [h("atlas", "plain", [["collection", "atlas", "MyColl"]]), h("atlas", "use_mycoll", who=0)],  # a new collection name, reused executor
+        # the same metadata twice in a row on one executor: the second query's own declarations must be processed again
+        [h("atlas", "plain", [["method", "xAOD::Jet", "bar", "int"]]), h("atlas", "declared", [["method", "xAOD::Jet", "bar", "int"]], who=0)],
+        [h("cms_aod", "plain", [["method", COLL["cms_aod"][1], "bar", "int"]]), h("cms_aod", "declared", [["method", COLL["cms_aod"][1], "bar", "int"]], who=0)],
+        [h("cms_miniaod", "fail_write_op", [["method", COLL["cms_miniaod"][1], "bar", "int"]]), h("cms_miniaod", "declared", [["method", COLL["cms_miniaod"][1], "bar", "int"]], who=0)],
+        [h("atlas", "plain", [["enum", "xAOD.Jet", "Color", ["Red", "Blue"]]]), h("atlas", "enum", [["enum", "xAOD.Jet", "Color", ["Red", "Blue"]]], who=0)],
         [{"op": "create", "backend": "cms_aod"}, h("atlas"), h("cms_aod", "default", who=0)],  # h_cross (reused executor)
         [{"op": "create", "backend": "cms_aod"}, h("atlas"), h("cms_aod", "undeclared2", [["method", "xAOD::TruthParticle", "bar", "int"]])],
     ]
